@@ -24,6 +24,9 @@ pub enum Op {
     AssertAny,
     /// two assertions with seeded credential n, one after the other, in one task
     AssertTwice(u8),
+    /// an ordinary assertion, then a silent one (up = uv = false, nothing reported by the user
+    /// step) and another silent one with seeded credential n, in one task
+    AssertThenSilent(u8),
 }
 #[derive(Clone, Debug, Serialize, Deserialize, PartialEq, Eq, Hash)]
 pub struct Scenario {
@@ -42,7 +45,7 @@ pub enum Outcome {
     Registered { cred: Vec<u8> },
     Failed(u8),
     /// two assertions in sequence: counter or status byte of each
-    AssertedTwice { cred: Vec<u8>, first: Result<u32, u8>, second: Result<u32, u8> },
+    AssertedSeq { cred: Vec<u8>, results: Vec<Result<u32, u8>> },
 }
 
 /// A store whose first `update_credential` call fails (the write-back of a counter is lost once).
@@ -86,9 +89,10 @@ type Results = Arc<StdMutex<Vec<Option<Outcome>>>>;
 
 fn task<S>(store: S, op: Op, idx: usize, uv_yields: usize, results: Results) -> Task
 where
-    S: CredentialStore<PasskeyItem = Passkey> + Send + Sync + 'static,
+    S: CredentialStore<PasskeyItem = Passkey> + Send + Sync + Clone + 'static,
 {
     Box::pin(async move {
+        let store2 = store.clone();
         let uv = ScriptedUv { verification_cap: Some(true), presence_cap: true, outcome: UvOutcome::Ok { presence: true, verification: true }, yields: uv_yields, log: Log::new() };
         // the outer shim suspends before each store call, so another ceremony can run between any two critical sections
         let mut auth = Authenticator::new(Aaguid::new_empty(), Yielding { inner: store, before: 1, after: 0 }, uv);
@@ -101,7 +105,16 @@ where
             Op::AssertTwice(n) => {
                 let first = auth.get_assertion(ga_request(RP, Some(vec![cred_id(n)]), false, true, true, false, None)).await.map(|r| r.auth_data.counter.unwrap_or(0)).map_err(u8::from);
                 let second = auth.get_assertion(ga_request(RP, Some(vec![cred_id(n)]), false, true, true, false, None)).await.map(|r| r.auth_data.counter.unwrap_or(0)).map_err(u8::from);
-                Outcome::AssertedTwice { cred: cred_id(n), first, second }
+                Outcome::AssertedSeq { cred: cred_id(n), results: vec![first, second] }
+            }
+            Op::AssertThenSilent(n) => {
+                let first = auth.get_assertion(ga_request(RP, Some(vec![cred_id(n)]), false, true, true, false, None)).await.map(|r| r.auth_data.counter.unwrap_or(0)).map_err(u8::from);
+                // a second authenticator on the same store whose user step reports nothing
+                let quiet = ScriptedUv { verification_cap: Some(true), presence_cap: true, outcome: UvOutcome::Ok { presence: false, verification: false }, yields: uv_yields, log: Log::new() };
+                let mut auth2 = Authenticator::new(Aaguid::new_empty(), Yielding { inner: store2, before: 1, after: 0 }, quiet);
+                let second = auth2.get_assertion(ga_request(RP, Some(vec![cred_id(n)]), false, false, false, false, None)).await.map(|r| r.auth_data.counter.unwrap_or(0)).map_err(u8::from);
+                let third = auth2.get_assertion(ga_request(RP, Some(vec![cred_id(n)]), false, false, false, false, None)).await.map(|r| r.auth_data.counter.unwrap_or(0)).map_err(u8::from);
+                Outcome::AssertedSeq { cred: cred_id(n), results: vec![first, second, third] }
             }
             Op::AssertAny => match auth.get_assertion(ga_request(RP, None, false, true, true, false, None)).await {
                 Ok(r) => Outcome::Asserted { cred: r.credential.map(|d| d.id.to_vec()).unwrap_or_default(), counter: r.auth_data.counter.unwrap_or(0) },
@@ -174,11 +187,11 @@ fn judge(sc: &Scenario, end: &End, outs: &[Option<Outcome>], store: &[Rec]) -> V
                 }
             }
             Some(Outcome::Asserted { .. }) => {}
-            Some(Outcome::AssertedTwice { first, second, .. }) => {
-                let failures = [first, second].iter().filter(|r| r.is_err()).count();
+            Some(Outcome::AssertedSeq { results, .. }) => {
+                let failures = results.iter().filter(|r| r.is_err()).count();
                 let allowed = usize::from(sc.store == "memory-flaky");
                 if failures > allowed {
-                    v.push(("ceremony-failed".into(), format!("ceremony {i}: assertions in sequence ended {first:?} then {second:?}; the store loses at most {allowed} counter write-back(s)")));
+                    v.push(("ceremony-failed".into(), format!("ceremony {i}: assertions in sequence ended {results:?}; the store loses at most {allowed} counter write-back(s)")));
                 }
             }
         }
@@ -188,7 +201,7 @@ fn judge(sc: &Scenario, end: &End, outs: &[Option<Outcome>], store: &[Rec]) -> V
         .iter()
         .flat_map(|o| match o {
             Some(Outcome::Asserted { cred, counter }) => vec![(cred.clone(), *counter)],
-            Some(Outcome::AssertedTwice { cred, first, second }) => [first, second].iter().filter_map(|r| r.as_ref().ok().map(|c| (cred.clone(), *c))).collect(),
+            Some(Outcome::AssertedSeq { cred, results }) => results.iter().filter_map(|r| r.as_ref().ok().map(|c| (cred.clone(), *c))).collect(),
             _ => vec![],
         })
         .collect();
@@ -243,7 +256,10 @@ pub fn scenarios(tier: Tier) -> Vec<(Scenario, Option<usize>)> {
             // so that no counter value is ever handed out twice (sequential assertions in one task,
             // a registration interleaved)
             v.push((mk("assert;assert(lost write-back)", vec![Op::AssertTwice(1)], "memory-flaky"), None));
+            // silent assertions (nothing asked of the user, nothing reported) advance the counter too
+            v.push((mk("assert;silent;silent", vec![Op::AssertThenSilent(1)], "memory"), None));
             let b3 = Some(tier.pick(2, 3));
+            v.push((mk("assert;silent;silent||register", vec![Op::AssertThenSilent(1), Op::Register], "memory"), b3));
             v.push((mk("assert;assert(lost write-back)||register", vec![Op::AssertTwice(1), Op::Register], "memory-flaky"), b3));
             v.push((mk("assert||assert||assert(same)", vec![Op::Assert(1), Op::Assert(1), Op::Assert(1)], "memory"), b3));
             v.push((mk("assert||assert||register", vec![Op::Assert(1), Op::Assert(1), Op::Register], "memory"), b3));
@@ -299,7 +315,7 @@ pub fn explore_scenario(sc: &Scenario, bound: Option<usize>, cap: u64) -> Result
                 Some(Outcome::Asserted { counter, .. }) => format!("a{counter}"),
                 Some(Outcome::Registered { .. }) => "r".into(),
                 Some(Outcome::Failed(b)) => format!("e{b:02x}"),
-                Some(Outcome::AssertedTwice { first, second, .. }) => format!("{first:?}+{second:?}"),
+                Some(Outcome::AssertedSeq { results, .. }) => format!("{results:?}"),
                 None => "-".into(),
             }).collect::<Vec<_>>());
             if !outcomes.contains_key(&vec_key) && sample_traces.len() < 3 {
